@@ -28,7 +28,7 @@ EXPLANATION = (
     "Not decided: per-shape delta content (C05), reference blending (C13).")
 ASSUMPTIONS = ["observers.notify delivers to every subscribed observer (slot_observer fan-out)",
                "ops tables are wired to the functions of their own shape (C05.f / C20.a)"]
-DECIDED = ["a monotone record", "b writers of last_modified_time", "c readers", "d propagate iff newly recorded", "e every write marks",
+DECIDED = ["g input delta accessors gated on the current cycle", "a monotone record", "b writers of last_modified_time", "c readers", "d propagate iff newly recorded", "e every write marks",
            "f consumers are proxies", "h fixed-shape parent ticks only through its children"]
 NOT_DECIDED = ["delta content per shape", "reference blend rules"]
 
@@ -184,6 +184,36 @@ def check(run: Run) -> None:
                                 loc=fa.loc((st + muts)[0]))
         run.sites(n, 5, "input accessors")
 
+    with run.obligation("C04.g", "K7", "input-side delta accessors of TSS/TSD inputs answer only in the cycle that produced the delta: every "
+                        "added/removed/modified accessor (ranges AND per-slot probes) is gated on modified() / structure_modified()"):
+        fam = [("src/hgraph/types/time_series/ts_input/set_view.cpp", "TSSInputView", r"added|removed|added_values|removed_values|slot_added|slot_removed", ("modified()",)),
+               ("src/hgraph/types/time_series/ts_input/dict_view.cpp", "TSDInputView",
+                r"modified_keys|modified_values|modified_items", ("modified()",)),
+               ("src/hgraph/types/time_series/ts_input/dict_view.cpp", "TSDInputView",
+                r"added_keys|added_values|added_items|removed_keys|removed_values|removed_items|slot_added|slot_removed", ("structure_modified()",))]
+        n = 0
+        for rel, cls, names, guards in fam:
+            for fd in [f for f in t.file(rel).funcs if f.cls == cls and re.fullmatch(names, f.name)]:
+                fa = R.parse(run, fd)
+                cn = R.aliases_of(fa)
+                fl = R.flow(run, fa)
+                n += 1
+                run.count(1, f"C04.g.{cls}::{fd.name}")
+                raw = lambda x: x.kind == "call" and x.recv == "data_view()" and re.fullmatch(
+                    r"added|removed|added_values|removed_values|slot_added|slot_removed|modified_keys|added_keys|removed_keys|slot_modified", x.name or "")
+                # any path to a raw delta read (or to a non-empty range construction) passes a T-outcome of the current-cycle guard
+                gate = lambda node, lab: node.kind == "cond" and node.label in guards and lab == "T"
+                tgt = lambda x: raw(x) or (x.kind == "stmt" and x.label.startswith("return ") and "empty_input" not in x.label and "false" != x.label[7:].strip()
+                                           and not x.label.startswith("return modified()&&") and not x.label.startswith("return !view_."))
+                w = fl.reach([fl.start], targets=tgt, after_source=False, edge_skip=gate)
+                # single-expression forms: `return guard && ...` / `sampled ? live : guard && raw`
+                exprs = [cn(r.e) for r in R.find(fa, lambda x: isinstance(x, C.Return)) if r.e is not None]
+                inline_ok = all(any(g in e for g in guards) or "empty_input" in e or e in ("false",) for e in exprs)
+                if w is not None and not inline_ok:
+                    run.finding("C04.g", f"{cls}::{fd.name}:ungated", f"{cls}::{fd.name} exposes delta state without testing {' / '.join(guards)} first: the "
+                                f"producer clears its delta masks lazily, so an idle cycle would read the previous tick's delta", loc=f"{rel}:{fd.line}")
+        run.sites(n, 15, "input delta accessors")
+
     with run.obligation("C04.h", "K1", "fixed_copy_value_from / fixed_move_value_from report a new modification only when a child reported one "
                         "and was newly recorded; fixed_record_child_modified records nothing of its own"):
         for name, impl in (("fixed_copy_value_from", "copy_value_from_impl"), ("fixed_move_value_from", "move_value_from_impl")):
@@ -233,6 +263,8 @@ VARIANTS = [
     {"id": "d-recursion-stops", "expect": "C04.d", "edits": [{"file": TYPES, "find": "if (state.record_modified(mutation_time)) { state.parent.notify_child_modified(mutation_time); }", "replace": "if (state.record_modified(mutation_time) && state.observers.entries_empty()) { state.parent.notify_child_modified(mutation_time); }"}]},
     {"id": "d-mark-no-propagate", "expect": "C04", "edits": [{"file": BASEH, "find": "            if (state.record_modified(mutation_time_))\n            {\n                state.parent.notify_child_modified(mutation_time_);\n            }", "replace": "            static_cast<void>(state.record_modified(mutation_time_));"}]},
     {"id": "e-copy-no-mark", "expect": "C04.e", "edits": [{"file": BASE, "find": "  const bool newly_modified = table.copy_value_from_impl(\n      table.context, storage_.data(), source, mutation_time_);\n  if (newly_modified) {", "replace": "  const bool newly_modified = table.copy_value_from_impl(\n      table.context, storage_.data(), source, mutation_time_);\n  if (newly_modified && !modified(mutation_time_)) {"}]},
+    {"id": "g-removed-valid-not-modified", "expect": "C04.g", "edits": [{"file": "src/hgraph/types/time_series/ts_input/set_view.cpp", "find": "    Range<ValueView> TSSInputView::removed() const\n    {\n        if (!modified())", "replace": "    Range<ValueView> TSSInputView::removed() const\n    {\n        if (!valid())"}]},
+    {"id": "g-revert-slot-probe-fix", "expect": "C04.g", "edits": [{"file": "src/hgraph/types/time_series/ts_input/set_view.cpp", "find": "        return modified() && !view_.inherited_sampled_transition() && data_view().slot_removed(slot);", "replace": "        return data_view().slot_removed(slot);"}]},
     {"id": "h-parent-self-tick", "expect": "C04.h", "edits": [{"file": FIXED, "find": "            bool newly_modified = false;\n            for (std::size_t index = 0; index < state->element_count(); ++index)\n            {\n                auto source_value = source_values.at(index);\n                if (!source_value.has_value()) { continue; }\n                const auto child = state->element_type(index);\n                const auto &ops  = child_ops(child);\n                void       *data  = child_data(state, memory, index);\n                if (ops.copy_value_from_impl(", "replace": "            bool newly_modified = state->element_count() != 0;\n            for (std::size_t index = 0; index < state->element_count(); ++index)\n            {\n                auto source_value = source_values.at(index);\n                if (!source_value.has_value()) { continue; }\n                const auto child = state->element_type(index);\n                const auto &ops  = child_ops(child);\n                void       *data  = child_data(state, memory, index);\n                if (ops.copy_value_from_impl("}]},
     {"id": "c-twin-operand-swap", "expect": None, "edits": [{"file": BASE, "find": "         tracking().last_modified_time == evaluation_time;", "replace": "         evaluation_time == tracking().last_modified_time;"}]},
 ]
